@@ -94,6 +94,28 @@ fn function_keys(wit: &str) -> Result<Vec<(bool, String)>, String> {
     Ok(out)
 }
 
+/// Known generator defect (lead for C09): with `raw_strings`, lowering an owned
+/// string (export results; every parameter of an async import) emits
+/// `.into_bytes()` on a `Vec<u8>`, which does not compile.
+fn any_string(wit: &str) -> bool {
+    let Ok((resolve, world)) = witgen::parse(wit) else { return false };
+    let abi = cabi_ref::Abi::new(&resolve, 4);
+    let w = &resolve.worlds[world];
+    for (_, item) in w.imports.iter().chain(w.exports.iter()) {
+        let funcs: Vec<&wit_parser::Function> = match item {
+            WorldItem::Interface { id, .. } => resolve.interfaces[*id].functions.values().collect(),
+            WorldItem::Function(f) => vec![f],
+            _ => vec![],
+        };
+        for f in funcs {
+            if f.params.iter().map(|p| &p.ty).chain(f.result.iter()).any(|t| crate::contains_string(&abi, t, 0)) {
+                return true;
+            }
+        }
+    }
+    false
+}
+
 /// `name: func(` -> `name: async func(` for the occurrences selected by `pick`
 fn wit_async(wit: &str, mut pick: impl FnMut(usize) -> bool) -> (String, usize) {
     let mut out = String::new();
@@ -200,6 +222,12 @@ pub fn run(args: &Args, dir: &Path, seed: u64, count: usize, crates: &str, repo:
                 continue;
             }
         };
+        let mut base = base.clone();
+        if base.raw_strings && any_string(&sync_wit) {
+            base.raw_strings = false;
+            *avoided.entry("raw_strings with a string in any function signature (generated `.into_bytes()` on Vec<u8> does not compile: lead for C09)".into()).or_insert(0) += 1;
+        }
+        let base = &base;
         let mut vrng = rng.fork(0x7700 + i as u64);
         let todo: Vec<char> = if replay_directives.is_some() { vec!['s', 'x'] } else { variants.clone() };
         for v in todo {
@@ -227,7 +255,13 @@ pub fn run(args: &Args, dir: &Path, seed: u64, count: usize, crates: &str, repo:
                     }
                     wit = w2;
                 }
-                other => opts.async_ = directives(&keys, other, &mut vrng),
+                other => {
+                    opts.async_ = directives(&keys, other, &mut vrng);
+                    if opts.async_.is_empty() {
+                        // nothing to bind async in this direction: the variant would be the sync one
+                        continue;
+                    }
+                }
             }
             let vsrc = WorldSrc { wit, origin: src.origin.clone(), tags: src.tags.clone() };
             let mut e = build_world_ex(dir, &name, &vsrc, &opts, crates, repo, &mut avoided, true);
